@@ -29,6 +29,8 @@ The unknown-type codes (macros) are recovered from the set-up functions (setup_e
 setup_ss_assemblage).
   C03.onecomp  "exchangers keep their exchange capacity": step_save_exch books each exchange master's site total on exactly one component
                (the component loop is left after the first store); setup_exchange sums the element over the components of a master
+  C03.ssphase  the solid-solution terms of a component (dn, dnb, dnc, log10_fraction_x, log10_lambda) are copied into the shared phase
+               unconditionally and together, in setup_ss_assemblage and in quick_setup
   C03.zerosites  an exchanger related to an absent phase has no sites but does have an unknown: on model reuse quick_setup assigns
                unknown->moles for exchange / surface-site masters with total == 0 as well (finite-domain evaluation of the master loop)
 Not decided: SI = target / phase absent with SI <= target, dissolve_only / precipitate_only / force_equality (inequality solver
@@ -125,8 +127,53 @@ def onecomp_rule(P, R):
         R.anchor_missing(RULE, "setup_exchange no longer accumulates the site total over the components")
 
 
+def ssphase_rule(P, R):
+    """"ideal components at activity equal to mole fraction": the solid-solution terms of a component (dn, dnb, dnc, log10_fraction_x,
+    log10_lambda) live twice - in the component of the entity and in the shared `class phase`, which the residual and the Jacobian of
+    EVERY component read (build_ss_assemblage stores phase->log10_lambda for ideal ones too) and which survives from calculation to
+    calculation.  When the unknowns of a solid solution are set up (setup_ss_assemblage) or reloaded (quick_setup) all five phase fields
+    are copied from the component, unconditionally and side by side: a copy made only for non-ideal solid solutions leaves an ideal
+    component with the activity coefficient the phase had in an earlier calculation."""
+    RULE = "C03.ssphase"
+    R.rule(RULE, "setup_ss_assemblage / quick_setup copy all five solid-solution terms of a component into the shared phase, unconditionally", minimum=10)
+    FIELDS = ("dn", "dnb", "dnc", "log10_fraction_x", "log10_lambda")
+    for q in ("Phreeqc::setup_ss_assemblage", "Phreeqc::quick_setup"):
+        f = P.one(q)
+        where = dict(file=f["file"], function=f["q"])
+        # the block that holds the copies: the Compound containing the assignment of phase::dn from Get_dn()
+        def copies(blk):
+            out = {}
+            for st in blk[2]:
+                if T.is_node(st) and st[0] == "Bin" and st[2] == "=":
+                    l = T.strip_casts(st[3])
+                    if l[0] == "Member" and l[2].startswith("phase::") and l[2].split("::")[-1] in FIELDS and any(T.callee_name(c) == "Get_" + l[2].split("::")[-1] for c in T.calls(st[4])):
+                        out[l[2].split("::")[-1]] = st
+            return out
+        best = {}
+        for blk in T.walk(f["body"]):
+            if blk[0] == "Compound":
+                c = copies(blk)
+                if "dn" in c and len(c) > len(best):
+                    best = c
+        if not best:
+            R.anchor_missing(RULE, "%s: the copies of the solid-solution terms into the phase were not found" % q)
+            continue
+        for fld in FIELDS:
+            inst = "%s:%s" % (q.split("::")[-1], fld)
+            if fld in best:
+                R.ok(RULE, inst, "copied next to dn (line %d)" % best[fld][1])
+            else:
+                # is it copied elsewhere (conditionally)?
+                cond = [x for x in T.walk(f["body"]) if x[0] == "Bin" and x[2] == "=" and T.strip_casts(x[3])[0] == "Member" and T.strip_casts(x[3])[2] == "phase::" + fld]
+                R.violation(RULE, inst, "phase->%s is %s: build_ss_assemblage and the residuals read it for every component, so an ideal component keeps the value the shared phase "
+                            "had in an earlier (non-ideal) calculation and its activity no longer equals its mole fraction"
+                            % (fld, "copied only under a condition (line %d), not side by side with dn" % cond[0][1] if cond else "no longer copied from the component"),
+                            line=(cond[0][1] if cond else best["dn"][1]), **where)
+
+
 def run(P, R, tier):
     onecomp_rule(P, R)
+    ssphase_rule(P, R)
     from . import c20 as C20
     C20.zerosites_rule(P, R, RULE="C03.zerosites")
     R.undecided += ["SI = target for present phases / SI <= target for absent ones; dissolve_only, precipitate_only, force_equality (solver outcome)",
